@@ -113,6 +113,7 @@ func checkC09(c *Ctx) {
 	c09Values(c)
 	c09Scenes(c)
 	c09Nested(c)
+	c09Reentrant(c)
 	c09EndToEnd(c)
 }
 
@@ -372,12 +373,17 @@ func c09ValuesFor(r *rand.Rand, ch *characteristic.Characteristic, wrapper strin
 			}
 		} else {
 			vs = []interface{}{"", "x", `quote " backslash \ slash /`, "<tag> & 'amp'", "line sep  para", "𝄞 non-BMP 😀", "tab\tnl\nnul\x00",
-				strings.Repeat("long ", 1000), "ünï©ødé"}
+				strings.Repeat("long ", 1000), "ünï©ødé",
+				"decomposed e\u0301 A\u030a, compatibility \u212b \u2126 \ufb01, jamo \u1100\u1161"} // not in any normal form: a value is bytes, not text
 		}
 	}
 	if !thorough && len(vs) > 6 {
+		last := vs[len(vs)-1]
 		r.Shuffle(len(vs), func(i, j int) { vs[i], vs[j] = vs[j], vs[i] })
 		vs = vs[:6]
+		if ch.Format == characteristic.FormatString {
+			vs[5] = last
+		}
 	}
 	return vs
 }
